@@ -29,6 +29,14 @@ pub enum SOp {
     Shrink,
     Reserve,
     CloneSwap,
+    /// (audit) push a generated string of exactly this many bytes (see `big`)
+    PushBig(usize),
+}
+
+/// Deterministic string of `n` bytes: lower-case letters with a period of 251, so that prefixes and the bytes around
+/// any power-of-two position differ.
+pub fn big(n: usize) -> String {
+    (0..n).map(|i| (b'a' + ((i % 251) % 26) as u8) as char).collect()
 }
 
 impl fmt::Debug for SOp {
@@ -40,6 +48,7 @@ impl fmt::Debug for SOp {
             SOp::Shrink => write!(f, "Shrink"),
             SOp::Reserve => write!(f, "Reserve"),
             SOp::CloneSwap => write!(f, "CloneSwap"),
+            SOp::PushBig(n) => write!(f, "PushBig({n})"),
         }
     }
 }
@@ -96,7 +105,8 @@ struct SortableAd(SortableStrVec);
 
 impl StrCont for SortableAd {
     fn push(&mut self, s: &str) -> Result<Option<usize>, String> {
-        self.0.push_str(s).map(Some).map_err(|e| e.to_string())
+        // both entry points in turn: push_str(&str) and push(String)
+        if self.0.len() % 2 == 0 { self.0.push_str(s) } else { self.0.push(s.to_string()) }.map(Some).map_err(|e| e.to_string())
     }
     fn len(&self) -> usize {
         self.0.len()
@@ -105,7 +115,11 @@ impl StrCont for SortableAd {
         self.0.is_empty()
     }
     fn get(&self, i: usize) -> Option<String> {
-        self.0.get(i).map(|s| s.to_string())
+        let a = self.0.get(i);
+        if a != self.0.get_by_id(i) {
+            return Some("\u{1}<get and get_by_id disagree>".to_string());
+        }
+        a.map(|s| s.to_string())
     }
     fn iter(&self) -> Option<Vec<String>> {
         Some(self.0.iter().map(|s| s.to_string()).collect())
@@ -189,7 +203,16 @@ macro_rules! bitpacked_ad {
         struct $name($t);
         impl StrCont for $name {
             fn push(&mut self, s: &str) -> Result<Option<usize>, String> {
-                self.0.push(s).map(Some).map_err(|e| e.to_string())
+                // both entry points in turn: push(&str) and extend(iterator)
+                if self.0.len() % 2 == 0 {
+                    self.0.push(s).map(Some).map_err(|e| e.to_string())
+                } else {
+                    match self.0.extend(std::iter::once(s)) {
+                        Ok(v) if v.len() == 1 => Ok(Some(v[0])),
+                        Ok(v) => Err(format!("extend of one string returned {} indices", v.len())),
+                        Err(e) => Err(e.to_string()),
+                    }
+                }
             }
             fn len(&self) -> usize {
                 self.0.len()
@@ -249,11 +272,17 @@ struct ZoAd {
     all: Vec<String>,
     z: ZoSortedStrVec,
     via_sortable: bool,
+    /// (audit) sort the strings (duplicates kept) and hand them to from_sorted_strings directly
+    via_sorted: bool,
 }
 
 impl ZoAd {
-    fn build(all: &[String], via_sortable: bool) -> Result<ZoSortedStrVec, String> {
-        if via_sortable {
+    fn build(all: &[String], via_sortable: bool, via_sorted: bool) -> Result<ZoSortedStrVec, String> {
+        if via_sorted {
+            let mut v = all.to_vec();
+            v.sort();
+            ZoSortedStrVec::from_sorted_strings(v).map_err(|e| e.to_string())
+        } else if via_sortable {
             // from_sortable_str_vec keeps duplicates (it requires sorted, not strictly sorted, input)
             let sv = SortableStrVec::from_iter(all.iter()).map_err(|e| e.to_string())?;
             ZoSortedStrVec::from_sortable_str_vec(sv).map_err(|e| e.to_string())
@@ -266,7 +295,7 @@ impl ZoAd {
 impl StrCont for ZoAd {
     fn push(&mut self, s: &str) -> Result<Option<usize>, String> {
         self.all.push(s.to_string());
-        match Self::build(&self.all, self.via_sortable) {
+        match Self::build(&self.all, self.via_sortable, self.via_sorted) {
             Ok(z) => {
                 self.z = z;
                 Ok(None)
@@ -299,7 +328,7 @@ impl StrCont for ZoAd {
         Some(self.z.range(a, b).map(|s| s.to_string()).collect())
     }
     fn try_clone(&self) -> Option<Box<dyn StrCont>> {
-        Some(Box::new(ZoAd { all: self.all.clone(), z: self.z.clone(), via_sortable: self.via_sortable }))
+        Some(Box::new(ZoAd { all: self.all.clone(), z: self.z.clone(), via_sortable: self.via_sortable, via_sorted: self.via_sorted }))
     }
 }
 
@@ -328,6 +357,8 @@ pub struct StrSpec {
     pub probes: Vec<&'static str>,
     pub depth_q: usize,
     pub depth_t: usize,
+    /// (audit) strings pushed into container and model before the history starts, without observing in between
+    pub prefill_fast: Vec<String>,
 }
 
 pub struct SSt {
@@ -342,10 +373,39 @@ fn fl(clause: &str, detail: String) -> Fail {
     Fail::new(clause, detail).with_class(clause)
 }
 
+/// strings in failure messages: long ones are abbreviated
+fn short(s: &str) -> String {
+    if s.len() <= 80 {
+        s.to_string()
+    } else {
+        let head: String = s.chars().take(24).collect();
+        format!("{head}...<{} bytes>", s.len())
+    }
+}
+fn short_opt(s: &Option<String>) -> Option<String> {
+    s.as_ref().map(|x| short(x))
+}
+fn short_all(v: &[String]) -> String {
+    if v.len() <= 12 && v.iter().all(|x| x.len() <= 80) {
+        format!("{v:?}")
+    } else {
+        format!("[{} strings, first {:?}]", v.len(), v.iter().take(3).map(|x| short(x)).collect::<Vec<_>>())
+    }
+}
+
 impl StrSpec {
     fn step(&self, st: &mut SSt, op: SOp) -> Result<(), Fail> {
+        let owned;
         match op {
-            SOp::Push(s) => {
+            SOp::Push(_) | SOp::PushBig(_) => {
+                let s: &str = match op {
+                    SOp::Push(s) => s,
+                    SOp::PushBig(n) => {
+                        owned = big(n);
+                        &owned
+                    }
+                    _ => unreachable!(),
+                };
                 let r = st.c.push(s);
                 let too_long = s.len() > self.max_len;
                 match r {
@@ -359,7 +419,7 @@ impl StrSpec {
                             Sem::Seq => {
                                 if let Some(i) = idx {
                                     if i != st.model.len() {
-                                        return Err(fl("push_index", format!("push({s:?}) returned index {i}, model says {}", st.model.len())));
+                                        return Err(fl("push_index", format!("push({:?}) returned index {i}, model says {}", short(s), st.model.len())));
                                     }
                                 }
                                 st.model.push(s.to_string());
@@ -368,7 +428,7 @@ impl StrSpec {
                                 Some(i) if i == st.model.len() => st.model.push(s.to_string()),
                                 Some(i) if i < st.model.len() && st.model[i] == s => {}
                                 other => {
-                                    return Err(fl("push_index", format!("push({s:?}) returned {other:?}; {} strings stored, string at that index: {:?}", st.model.len(), other.and_then(|i| st.model.get(i)))));
+                                    return Err(fl("push_index", format!("push({:?}) returned {other:?}; {} strings stored, string at that index: {:?}", short(s), st.model.len(), other.and_then(|i| st.model.get(i)).map(|x| short(x)))));
                                 }
                             },
                             Sem::SortedSet => {
@@ -430,19 +490,19 @@ impl StrSpec {
                     (_, Some(w)) if w.contains('\0') => "string_with_nul",
                     _ => "not_the_pushed_string",
                 };
-                return Err(fl2(clause, sub, format!("get({i}) = {g:?}, model says {want:?}")));
+                return Err(fl2(clause, sub, format!("get({i}) = {:?}, model says {:?}", short_opt(&g), short_opt(&want))));
             }
             if let Some(b) = c.get_bytes(i) {
                 let wantb = m.get(i).map(|s| s.as_bytes().to_vec());
                 if b != wantb {
                     let clause = if i >= m.len() { "out_of_range" } else { "get" };
-                    return Err(fl(clause, format!("get_bytes({i}) = {b:?}, model says {wantb:?}")));
+                    return Err(fl(clause, format!("get_bytes({i}) has {:?} bytes, model says {:?} bytes (or other content)", b.as_ref().map(|x| x.len()), wantb.as_ref().map(|x| x.len()))));
                 }
             }
         }
         if let Some(it) = c.iter() {
             if &it != m {
-                return Err(fl("sequence", format!("iter() yields {it:?}, model says {m:?}")));
+                return Err(fl("sequence", format!("iter() yields {}, model says {}", short_all(&it), short_all(m))));
             }
         }
         for p in &self.probes {
@@ -466,7 +526,7 @@ impl StrSpec {
             match (st.sorted, view) {
                 (None, None) => {}
                 (None, Some(v)) => {
-                    return Err(fl("sorted_view", format!("a sorted view {v:?} is served although the vector changed after the last sort")));
+                    return Err(fl("sorted_view", format!("a sorted view {} is served although the vector changed after the last sort", short_all(&v))));
                 }
                 (Some(k), None) => {
                     if !m.is_empty() {
@@ -479,7 +539,7 @@ impl StrSpec {
                         SortKind::Lex | SortKind::Radix => {
                             want.sort();
                             if v != want {
-                                return Err(fl("sorted_view", format!("after Sort({k:?}) the sorted view is {v:?}, model says {want:?}")));
+                                return Err(fl("sorted_view", format!("after Sort({k:?}) the sorted view is {}, model says {}", short_all(&v), short_all(&want))));
                             }
                             lex = Some(want);
                         }
@@ -487,7 +547,7 @@ impl StrSpec {
                             want.sort();
                             want.reverse();
                             if v != want {
-                                return Err(fl("sorted_view", format!("after Sort({k:?}) the sorted view is {v:?}, model says {want:?}")));
+                                return Err(fl("sorted_view", format!("after Sort({k:?}) the sorted view is {}, model says {}", short_all(&v), short_all(&want))));
                             }
                         }
                         SortKind::ByLength => {
@@ -495,7 +555,7 @@ impl StrSpec {
                             a.sort();
                             want.sort();
                             if a != want || v.windows(2).any(|w| w[0].len() > w[1].len()) {
-                                return Err(fl("sorted_view", format!("after Sort(ByLength) the sorted view is {v:?}: not the model's strings in non-decreasing length ({want:?})")));
+                                return Err(fl("sorted_view", format!("after Sort(ByLength) the sorted view is {}: not the model's strings in non-decreasing length ({})", short_all(&v), short_all(&want))));
                             }
                         }
                     }
@@ -510,12 +570,12 @@ impl StrSpec {
                         Err(i) => !sv.iter().any(|x| x == p) && i == sv.partition_point(|x| x.as_str() < *p),
                     };
                     if !ok {
-                        return Err(fl2("search", "binary_search", format!("binary_search({p:?}) = {r:?} over the sorted strings {sv:?}")));
+                        return Err(fl2("search", "binary_search", format!("binary_search({:?}) = {r:?} over the sorted strings {}", short(p), short_all(sv))));
                     }
                 }
                 if let Some(b) = c.contains(p) {
                     if b != sv.iter().any(|x| x == p) {
-                        return Err(fl2("search", "contains", format!("contains({p:?}) = {b} over {sv:?}")));
+                        return Err(fl2("search", "contains", format!("contains({:?}) = {b} over {}", short(p), short_all(sv))));
                     }
                 }
             }
@@ -525,7 +585,7 @@ impl StrSpec {
                         if let Some(r) = c.range(a, b) {
                             let want: Vec<String> = sv.iter().filter(|x| x.as_str() >= *a && x.as_str() < *b).cloned().collect();
                             if r != want {
-                                return Err(fl2("search", "range", format!("range({a:?}, {b:?}) = {r:?}, model says {want:?}")));
+                                return Err(fl2("search", "range", format!("range({:?}, {:?}) = {}, model says {}", short(a), short(b), short_all(&r), short_all(&want))));
                             }
                         }
                     }
@@ -558,10 +618,11 @@ impl SeqSpec for StrSpec {
     }
     fn bound(&self, tier: Tier) -> String {
         format!(
-            "all histories of <= {} mutators from {:?} after a scripted prefix of {} ops; model = {}; after every step: len, get(i)/get_bytes(i) for i in 0..=len+1, iter(), find/count_prefix/binary_search/contains/range on the probes {:?}, and the sorted view where offered",
+            "all histories of <= {} mutators from {:?} after a scripted prefix of {} ops (+ {} strings pushed before the history starts); model = {}; after every step: len, get(i)/get_bytes(i) for i in 0..=len+1, iter(), find/count_prefix/binary_search/contains/range on the probes {:?}, and the sorted view where offered",
             self.depth(tier),
             self.alphabet,
             self.prefix.len(),
+            self.prefill_fast.len(),
             match self.sem {
                 Sem::Seq => "Vec<String>",
                 Sem::Intern => "index -> String table (duplicates may share an index)",
@@ -573,6 +634,31 @@ impl SeqSpec for StrSpec {
     }
     fn init(&self, _scratch: &Path) -> Result<SSt, Fail> {
         let mut st = SSt { c: (self.make)(), model: Vec::new(), sorted: None, refused: 0, last_op: "init".into() };
+        for s in &self.prefill_fast {
+            match st.c.push(s) {
+                Ok(idx) => {
+                    if let (Sem::Seq, Some(i)) = (self.sem, idx) {
+                        if i != st.model.len() {
+                            return Err(fl("push_index", format!("prefill: push returned index {i}, model says {}", st.model.len())));
+                        }
+                    }
+                    match self.sem {
+                        Sem::Seq | Sem::Intern => st.model.push(s.clone()),
+                        Sem::SortedSet => {
+                            if !st.model.contains(s) {
+                                st.model.push(s.clone());
+                                st.model.sort();
+                            }
+                        }
+                        Sem::SortedBag => {
+                            st.model.push(s.clone());
+                            st.model.sort();
+                        }
+                    }
+                }
+                Err(e) => return Err(Fail::new("construct", format!("prefill push failed: {e}"))),
+            }
+        }
         for op in &self.prefix {
             self.apply(&mut st, op)?;
             let mut h = DefaultHasher::new();
@@ -599,7 +685,7 @@ impl SeqSpec for StrSpec {
 
 #[allow(clippy::too_many_arguments)]
 fn spec(name: &str, make: impl Fn() -> Box<dyn StrCont> + 'static, sem: Sem, alphabet: Vec<SOp>, prefix: Vec<SOp>, max_len: usize, probes: &[&'static str], dq: usize, dt: usize) -> Seq<StrSpec> {
-    Seq(StrSpec { name: name.to_string(), make: Box::new(make), sem, alphabet, prefix, max_len, probes: probes.to_vec(), depth_q: dq, depth_t: dt })
+    Seq(StrSpec { name: name.to_string(), make: Box::new(make), sem, alphabet, prefix, max_len, probes: probes.to_vec(), depth_q: dq, depth_t: dt, prefill_fast: Vec::new() })
 }
 
 fn pushes(strs: &[&'static str]) -> Vec<SOp> {
@@ -664,7 +750,7 @@ pub fn register(reg: &mut Registry) {
     za.push(CloneSwap);
     reg.add(spec(
         "ZoSortedStrVec[from_strings]",
-        || Box::new(ZoAd { all: vec![], z: ZoSortedStrVec::from_strings(vec![]).expect("empty"), via_sortable: false }),
+        || Box::new(ZoAd { all: vec![], z: ZoSortedStrVec::from_strings(vec![]).expect("empty"), via_sortable: false, via_sorted: false }),
         Sem::SortedSet,
         za.clone(),
         vec![],
@@ -675,7 +761,7 @@ pub fn register(reg: &mut Registry) {
     ));
     reg.add(spec(
         "ZoSortedStrVec[from_sortable_str_vec]",
-        || Box::new(ZoAd { all: vec![], z: ZoSortedStrVec::from_strings(vec![]).expect("empty"), via_sortable: true }),
+        || Box::new(ZoAd { all: vec![], z: ZoSortedStrVec::from_strings(vec![]).expect("empty"), via_sortable: true, via_sorted: false }),
         Sem::SortedBag,
         za,
         vec![],
@@ -684,4 +770,136 @@ pub fn register(reg: &mut Registry) {
         4,
         5,
     ));
+
+    // =============================================================================================
+    // Coverage audit
+    // =============================================================================================
+    fn leak(s: String) -> &'static str {
+        Box::leak(s.into_boxed_str())
+    }
+    fn with_prefill(mut s: Seq<StrSpec>, strs: Vec<String>) -> Seq<StrSpec> {
+        s.0.prefill_fast = strs;
+        s
+    }
+
+    // ---- SortableStrVec: the entry packs the length into 20 bits (CompactEntry::MAX_LENGTH = 2^20 - 1)
+    reg.add(spec(
+        "SortableStrVec/length-limit",
+        || Box::new(SortableAd(SortableStrVec::new())),
+        Sem::Seq,
+        vec![PushBig((1 << 20) - 1), PushBig(1 << 20), Push("ab"), Sort(SortKind::Lex), CloneSwap],
+        vec![],
+        usize::MAX,
+        &["ab", "zz"],
+        2,
+        3,
+    ));
+
+    // ---- SortableStrVec with more than 2 * cache_block_size (512) strings: binary_search switches to its block search;
+    //      all strings share their first byte, so radix_sort recurses below the first level with buckets >= 32
+    let k = |i: usize| format!("k{i:04}");
+    let mut many520: Vec<String> = (0..520).map(|i| k(i * 7 % 520)).collect();
+    many520.extend([k(100), k(100), k(256)]);
+    let block_probes: Vec<&'static str> = ["a", "k0000", "k0100", "k0255", "k0256", "k0256x", "k0257", "k0300", "k0511", "k0512", "k0519", "k0519x", "zz"].to_vec();
+    reg.add(with_prefill(
+        spec(
+            "SortableStrVec/prefill523",
+            || Box::new(SortableAd(SortableStrVec::new())),
+            Sem::Seq,
+            vec![Push("k0256x"), Push(""), Push("zz"), Sort(SortKind::Lex), Sort(SortKind::Radix), Sort(SortKind::ByLength), CloneSwap],
+            vec![],
+            usize::MAX,
+            &block_probes,
+            2,
+            3,
+        ),
+        many520,
+    ));
+
+    // ---- FixedLenStrVec: N above the 255-byte limit of the packed length; N = 32 reaches the >= 8 / >= 16 byte branches
+    //      of count_prefix / find_exact
+    let s255 = leak(big(255));
+    let s255b = leak(format!("b{}", big(254)));
+    let s256 = leak(big(256));
+    reg.add(spec(
+        "FixedLenStrVec<300>",
+        || Box::new(FixedAd::<300>(FixedLenStrVec::new())),
+        Sem::Seq,
+        pushes(&["a", s255, s255b, s256]),
+        vec![],
+        300,
+        &["a", s255, s255b, s256],
+        3,
+        4,
+    ));
+    let s8 = leak(big(8));
+    let s16 = leak(big(16));
+    let s16z = leak(format!("{}Z", big(15)));
+    let s17 = leak(big(17));
+    let s32 = leak(big(32));
+    let s33 = leak(big(33));
+    reg.add(spec(
+        "FixedLenStrVec<32>",
+        || Box::new(FixedAd::<32>(FixedLenStrVec::with_capacity(2))),
+        Sem::Seq,
+        pushes(&["", s8, s16, s16z, s17, s32, s33]),
+        vec![],
+        32,
+        &["", leak(big(7)), s8, leak(big(9)), s16, s16z, s17, s32, "zz"],
+        3,
+        4,
+    ));
+
+    // ---- BitPackedStringVec: find_simd compares needles of >= 16 bytes in 32-byte chunks
+    let n16 = leak(big(16));
+    let n32a = leak(format!("{}a", big(31)));
+    let n32b = leak(format!("{}b", big(31)));
+    let n33a = leak(format!("{}a", big(32)));
+    let n33b = leak(format!("{}b", big(32)));
+    let n64 = leak(format!("{}Q{}", big(40), big(23)));
+    let n64b = leak(big(64));
+    let long_needles = [n16, n32a, n32b, n33a, n33b, n64, n64b, leak(format!("{}c", big(31))), "zz"];
+    let mut bl = pushes(&[n16, n32a, n32b, n33a, n33b, n64]);
+    bl.push(CloneSwap);
+    reg.add(spec("BitPackedStringVec32/long-needles", || Box::new(BitPacked32Ad(BitPackedStringVec32::new())), Sem::Seq, bl.clone(), vec![], usize::MAX, &long_needles, 3, 4));
+    reg.add(spec("BitPackedStringVec64/long-needles", || Box::new(BitPacked64Ad(BitPackedStringVec64::new())), Sem::Seq, bl, vec![], usize::MAX, &long_needles, 3, 4));
+
+    // ---- ZoSortedStrVec: from_sorted_strings with duplicates; boundary bit vectors that cross the 256-bit lines of the
+    //      rank/select structure (30 strings of 16 bytes = 510 bits; "", "a", "ab" sort first and shift every later boundary)
+    reg.add(spec(
+        "ZoSortedStrVec[from_sorted_strings]",
+        || Box::new(ZoAd { all: vec![], z: ZoSortedStrVec::from_strings(vec![]).expect("empty"), via_sortable: false, via_sorted: true }),
+        Sem::SortedBag,
+        {
+            let mut v = pushes(&["", "a", "ab", "b", "\u{e9}"]);
+            v.push(CloneSwap);
+            v
+        },
+        vec![],
+        usize::MAX,
+        &zprobes,
+        4,
+        5,
+    ));
+    let z16 = |i: usize| format!("m{i:02}{}", big(13));
+    let zmany: Vec<String> = (0..30).map(|i| z16(i * 7 % 30)).collect();
+    let zp: Vec<&'static str> = vec!["", "a", "ab", leak(z16(0)), leak(z16(13)), leak(z16(14)), leak(z16(15)), leak(z16(29)), leak(format!("m14{}", big(12))), "zz"];
+    for (name, via_sortable) in [("ZoSortedStrVec[from_strings]/prefill30x16", false), ("ZoSortedStrVec[from_sortable_str_vec]/prefill30x16", true)] {
+        let mut v = pushes(&["", "a", "ab", "zz"]);
+        v.push(CloneSwap);
+        reg.add(with_prefill(
+            spec(
+                name,
+                move || Box::new(ZoAd { all: vec![], z: ZoSortedStrVec::from_strings(vec![]).expect("empty"), via_sortable, via_sorted: false }),
+                if via_sortable { Sem::SortedBag } else { Sem::SortedSet },
+                v,
+                vec![],
+                usize::MAX,
+                &zp,
+                3,
+                4,
+            ),
+            zmany.clone(),
+        ));
+    }
 }
